@@ -280,7 +280,7 @@ class Server(Acceptor):
                               wl=self.wl,
                               timeout=self.tymeout)
             if ca in self.ixes and self.ixes[ca] is not remoter:
-                self.shutdownIx(ca)
+                self.closeIx(ca)  # shutdown and close replaced connection
             self.ixes[ca] = remoter
 
 
@@ -569,6 +569,8 @@ class ServerTls(Server):
                                  cafilepath=self.cafilepath,
                                 )
 
+            if ca in self.cxes:  # close replaced connection
+                self.cxes[ca].close()
             self.cxes[ca] = remoter
 
 
@@ -581,6 +583,8 @@ class ServerTls(Server):
             cx.handshake()
             if cx.connected:  # handshake completed successfully
                 del self.cxes[ca]
+                if ca in self.ixes:  # close replaced connection
+                    self.closeIx(ca)
                 self.ixes[ca] = cx  # add to incoming connections
                 continue
             if cx.aborted:  # handshake completed unsuccessfully
